@@ -161,8 +161,16 @@ fn o_item<V: Into<u128>>(v: Option<V>) -> String {
     }
 }
 
+/// `size_hint()` as `Z:<lower>:<upper or ->`; the comparer checks `lower <= remaining <= upper`
+fn o_hint(h: (usize, Option<usize>)) -> String {
+    match h.1 {
+        Some(u) => format!("Z:{}:{}", h.0, u),
+        None => format!("Z:{}:-", h.0),
+    }
+}
+
 /// history of calls on a double-ended exact-size iterator: `n` next, `b` next_back, `l` len,
-/// `c` by_ref().count(), `a` by_ref().last(), `t..z` nth(k), `T..Z` nth_back(k)
+/// `c` by_ref().count(), `a` by_ref().last(), `t..z` nth(k), `T..Z` nth_back(k), `h` size_hint()
 fn iterhist<I>(mut it: I, ops: &str) -> String
 where
     I: DoubleEndedIterator + ExactSizeIterator,
@@ -175,6 +183,7 @@ where
             'b' => out.push(o_item(it.next_back())),
             'c' => out.push(format!("V:{}", it.by_ref().count())),
             'a' => out.push(o_item(it.by_ref().last())),
+            'h' => out.push(o_hint(it.size_hint())),
             _ => match nth_amount(c) {
                 Some(k) if c.is_ascii_uppercase() => out.push(o_item(it.nth_back(k))),
                 Some(k) => out.push(o_item(it.nth(k))),
@@ -196,6 +205,7 @@ where
         match c {
             'c' => out.push(format!("V:{}", it.by_ref().count())),
             'a' => out.push(o_item(it.by_ref().last())),
+            'h' => out.push(o_hint(it.size_hint())),
             _ => match nth_amount(c) {
                 Some(k) => out.push(o_item(it.nth(k))),
                 None => out.push(o_item(it.next())),
